@@ -892,6 +892,9 @@ def _li2_num(x):
     return s
 
 
+_MATH_CONSTANTS = {"pi": math.pi, "zeta3": 1.2020569031595942, "zeta5": 1.0369277551433699}
+
+
 def evalf(r, env):
     r = to_rat(r)
     cache = {}
@@ -901,6 +904,8 @@ def evalf(r, env):
             return cache[a]
         if a in env:
             v = float(env[a])
+        elif a in _MATH_CONSTANTS:
+            v = _MATH_CONSTANTS[a]
         else:
             ad = ATOMS.get(a)
             if ad is None or ad.kind in ("sym", "opaque"):
